@@ -17,6 +17,33 @@ from .evalctx import EvaluationContext, Routine
 logger = logging.getLogger(__name__)
 
 
+# the frame instruction and the operands of the instructions accessing
+# local variables address the cells of a call frame with 16 bits
+MAX_FRAME_CELLS = 0xffff
+
+
+# global variables are addressed with 16 bits as well; the size of the
+# global area is stored in 32 bits
+MAX_GLOBAL_VAR_INDEX = 0xffff
+MAX_GLOBAL_CELLS = 0xffffffff
+
+
+def globals_fit(context, global_vars):
+    from qvm.memlayout import get_type_size
+    idx = 0
+    for var_type in global_vars.values():
+        if idx > MAX_GLOBAL_VAR_INDEX:
+            return False
+        idx += get_type_size(context, var_type)
+    return idx <= MAX_GLOBAL_CELLS
+
+
+def frame_fits(routine):
+    from qvm.memlayout import get_params_size, get_local_vars_size
+    size = get_params_size(routine) + get_local_vars_size(routine)
+    return size <= MAX_FRAME_CELLS
+
+
 @dataclass
 class BlockContext:
     kind: str
@@ -834,11 +861,23 @@ class Pass2(CompilePass):
 
             if node.kind == 'dim_shared':
                 self.compilation.global_vars[decl.name] = decl.type
+                if not globals_fit(self.compilation,
+                                   self.compilation.global_vars):
+                    raise CompileError(
+                        EC.INVALID_DIMENSIONS,
+                        'Array too big: too many shared variables',
+                        node=decl)
             elif node.kind == 'static' or \
                  node.parent_routine.is_static:
                 node.parent_routine.static_vars[decl.name] = decl.type
             else:
                 node.parent_routine.local_vars[decl.name] = decl.type
+                if not frame_fits(node.parent_routine):
+                    raise CompileError(
+                        EC.INVALID_DIMENSIONS,
+                        'Array too big: the variables of a routine '
+                        f'are limited to {MAX_FRAME_CELLS} cells',
+                        node=decl)
 
     def process_assignment_pre(self, node):
         if not node.lvalue.type.is_coercible_to(node.rvalue.type):
@@ -1089,6 +1128,22 @@ class Compiler:
 
         logger.info('Generating code...')
         code = self._codegen.gen_code(tree)
+
+        # the code generator adds hidden variables (FOR limits, SELECT
+        # values) to the frames; check once more that they still fit
+        for routine in self._compilation.routines.values():
+            if not frame_fits(routine):
+                raise CompileError(
+                    EC.INVALID_DIMENSIONS,
+                    f'Too many variables in {routine.name}: the '
+                    'variables of a routine are limited to '
+                    f'{MAX_FRAME_CELLS} cells',
+                    loc_start=0)
+        if not globals_fit(self._compilation, code._globals):
+            raise CompileError(
+                EC.INVALID_DIMENSIONS,
+                'Too many shared and static variables',
+                loc_start=0)
 
         if self.optimization_level > 1:
             logger.info('Optimizing code...')
